@@ -29,6 +29,7 @@ type tvar struct {
 	sig     *FSig // for TFunc
 	loop    bool  // loop variable or recursion budget: never assigned
 	counted bool  // variable of a counted loop (for i = n, for i = a:b): may live in a register
+	elem    bool  // loop variable holding the elements of an array: an integer only if every element is
 	param   bool
 }
 
@@ -301,7 +302,9 @@ func (g *TGen) Expr(t TType, depth int) *Node {
 // pureInt draws integer arithmetic that can only evaluate to an integer (no indexing, calls or division).
 func (g *TGen) pureInt(depth int) *Node {
 	if depth <= 0 || g.chance(3, "pleaf") {
-		if vs := g.vars(func(v tvar) bool { return v.t == TInt && (v.param || v.loop) }); len(vs) > 0 && g.chance(2, "pvar") {
+		// only names that certainly hold an integer: the recursion fuel, counters and counted-loop variables (a
+		// parameter holds whatever the call passed, an element of an array may be nil)
+		if vs := g.vars(func(v tvar) bool { return v.t == TInt && v.loop && (v.counted || !v.elem) }); len(vs) > 0 && g.chance(2, "pvar") {
 			return Id(vs[g.intn(len(vs), "pv")].name)
 		}
 		return Int(rapid.SampledFrom(smallInts).Draw(g.t, "pint"))
@@ -639,7 +642,7 @@ func (g *TGen) loop() []*Node {
 		return []*Node{For(Assign(v.name, Infix(":", Int(from), Int(from+int64(g.intn(span, "span"))))), bodyWith(&v)...)}
 	case 3:
 		if g.c.Containers { // for x = array
-			v := tvar{name: g.loopVarName(), t: TInt, loop: true}
+			v := tvar{name: g.loopVarName(), t: TInt, loop: true, elem: true}
 			src := g.Expr(TArr, 1)
 			if src.K == KInfix && src.S == ":" { // for v = a:b is the counted form, whatever produced the range
 				v.counted = true
